@@ -526,7 +526,10 @@ def flags_from_author(prog, an, rep):
             def canon(e):
                 e2 = _expand(f, loop, e)
                 txt = src(e2).replace(cvar + '.', 'C.')
-                return norm_bool(ast.parse(txt, mode='eval').body)
+                try:
+                    return norm_bool(ast.parse(txt, mode='eval').body)
+                except SyntaxError:
+                    return ('unreadable', txt)
             rep.evaluated()
             pv = args.get('privileged')
             got = canon(pv) if pv is not None else None
